@@ -8,7 +8,7 @@ from pyvc.spec import ContractSet
 
 HOME = os.environ.get('VERIF_HOME', os.path.dirname(os.path.dirname(os.path.abspath(__file__))))
 
-_MODULES = ['ghosts', 'externals', 'datatypes', 'consensus', 'coinstate', 'manager', 'network', 'lemmas']
+_MODULES = ['ghosts', 'externals', 'datatypes', 'consensus', 'coinstate', 'manager', 'network', 'mining', 'pow', 'lemmas']
 _cset = None
 
 
@@ -49,6 +49,10 @@ def _tx_key(eng, x, st):
 
 # level / notes per property; functions and lemmas come from the props tags on the contracts
 PROPS = {
+    'C12': dict(level='proof', native=['native.c12'],
+                explanation="contracts of the two MinerWatcher handlers and of the block-assembly functions (proof); that "
+                            "an assembled block is never refused by the node's own validators is additionally exercised by "
+                            "a bounded run of the real handlers (reported under `bounded`, not counted as proved)"),
     'C09': dict(level='proof',
                 explanation="path contracts of ConnectedRemotePeer.handle_block_received over the chain manager, the block "
                             "store's write buffer, the committed blocks (ghost) and the relayed sequence (ghost)"),
